@@ -2,7 +2,10 @@
 
 package pipeline
 
-import "sync/atomic"
+import (
+	"sync/atomic"
+	"unsafe"
+)
 
 // Verification-only gate and trace points (build tag `verif`). In normal builds the
 // functions of verif_off.go are used instead: empty bodies, inlined away.
@@ -41,3 +44,31 @@ func verifTrace(kind string, a, b uint64) {
 		(*f)(kind, a, b)
 	}
 }
+
+// verifStreamKey identifies a stream (together with its streamID) in trace lines: FNV-1a of its name.
+func verifStreamKey(s *stream) uint64 {
+	h := uint64(14695981039346656037)
+	for i := 0; i < len(s.name); i++ {
+		h ^= uint64(s.name[i])
+		h *= 1099511628211
+	}
+	return h
+}
+
+// verifFinFlags packs the two booleans of finalize: bit1 = notifyInput, bit0 = backEvent.
+func verifFinFlags(notifyInput, backEvent bool) uint64 {
+	var f uint64
+	if notifyInput {
+		f |= 2
+	}
+	if backEvent {
+		f |= 1
+	}
+	return f
+}
+
+// verifBatcherID identifies a batcher in trace lines.
+func verifBatcherID(b *Batcher) uint64 { return uint64(uintptr(unsafe.Pointer(b))) }
+
+// VerifBatcherID is verifBatcherID for harness code.
+func VerifBatcherID(b *Batcher) uint64 { return verifBatcherID(b) }
